@@ -6,6 +6,8 @@ export CARGO_NET_OFFLINE=true
 mkdir -p "$D/work"
 ( cd "$D/tools/extract" && cargo build --release --offline 2>&1 | tail -2 )
 ( cd "$D/replay" && cp /repo/Cargo.lock . && CARGO_TARGET_DIR="$D/work/replay-target" cargo build --offline 2>&1 | tail -2 )
+# compile the Kani harness crate once (later runs only recompile what changed in /repo)
+( cd "$D/kani" && cp /repo/Cargo.lock . && CARGO_TARGET_DIR="$D/work/kani-target" cargo kani --output-format=terse --harness c12_scalar_views_agree 2>&1 | tail -2 )
 # warm-up verus (first run is slower)
 printf 'use vstd::prelude::*;\nverus!{ proof fn warm() ensures 1 + 1 == 2int {} }\nfn main(){}\n' > "$D/work/warm.rs"
 ( cd "$D/work" && verus warm.rs >/dev/null 2>&1 || true )
